@@ -10,7 +10,7 @@ FILES = ['theories/Base.v', 'theories/gen/Codec.v', 'theories/gen/Tp21Gen.v', 't
 
 
 def gen(rng, k):
-    return gen_tp.gen_transfers(rng, big=(k % 12 == 0))
+    return gen_tp.gen_transfers(rng, big=(k % 6 == 0))
 
 
 def nontrivial(sc, res):
